@@ -29,6 +29,7 @@ type specEnv struct {
 	ghost     map[string]string // ghost maps of a contract (name -> SMT function symbol)
 	entryHeld map[string][]string // when translating requires: locks stated to be held at entry
 	freeCells map[string]*Ptr     // captured variables of a closure contract (name -> cell)
+	freshBase string              // allocation counter against which fresh(x) is judged (default: function entry)
 }
 
 type sv struct {
